@@ -19,3 +19,4 @@ pub mod rereg;
 pub mod hostile_server;
 pub mod chaos;
 pub mod regrace;
+pub mod rrbulk;
